@@ -12,6 +12,13 @@ pub struct BuildCfg {
     pub env: Vec<(String, String)>,
     /// Some(content): a preprocessor adds `added-by-preprocessor.txt` with this content
     pub preprocessor: Option<String>,
+    /// what else the preprocessor does to the private copy: 0 nothing, 1 appends to app.txt in
+    /// place, 2 rewrites app.txt, 3 removes the file in the sub directory
+    #[serde(default)]
+    pub preprocessor_edit: u8,
+    /// set the app dir through `BuildConfig::app_dir` instead of the constructor
+    #[serde(default)]
+    pub app_dir_via_setter: bool,
     pub expect_failure: bool,
     /// the stand-in pack fails this build (scripted through an env pair)
     pub pack_fails: bool,
@@ -131,6 +138,8 @@ fn gen_build(r: &mut Rng, depth: u32) -> BuildNode {
             .collect(),
         env: gen_env(r),
         preprocessor: r.chance(2, 5).then(|| tricky(r)),
+        preprocessor_edit: r.below(4) as u8,
+        app_dir_via_setter: r.chance(1, 3),
         expect_failure,
         pack_fails,
     };
